@@ -12,6 +12,7 @@ package main
 import (
 	"crypto/tls"
 	"encoding/json"
+	"errors"
 	"fmt"
 	"net/http"
 	"net/netip"
@@ -31,6 +32,10 @@ type hop struct {
 	Kind string `json:"op"` // request protocol, or "reconfigure"
 	ID   string `json:"client_id,omitempty"`
 	Msg  uint16 `json:"dns_message_id,omitempty"`
+	// Old: the request arrives on a connection that was accepted before the
+	// last reconfiguration and is still served by the previous proxy instance
+	// (dnsproxy only closes its listeners on shutdown).
+	Old bool `json:"on_connection_of_previous_proxy,omitempty"`
 }
 
 func (o hop) String() string {
@@ -41,8 +46,15 @@ func (o hop) String() string {
 	if id == "" {
 		id = "-"
 	}
+	if o.Old {
+		return fmt.Sprintf("old-connection:%s(%s,msg=%d)", o.Kind, id, o.Msg)
+	}
 	return fmt.Sprintf("%s(%s,msg=%d)", o.Kind, id, o.Msg)
 }
+
+// errNoOldProxy: an old-connection request before any reconfiguration is not
+// in the alphabet.
+var errNoOldProxy = errors.New("no previous proxy instance")
 
 type histCase struct {
 	Phase string `json:"phase"`
@@ -62,6 +74,7 @@ func histAlphabet(quick bool) []hop {
 		{Kind: "dnscrypt", Msg: 7},
 		{Kind: "tls", Msg: 8},
 		{Kind: "quic", ID: "carol", Msg: 8},
+		{Kind: "tls", ID: "dave", Msg: 7, Old: true},
 	}
 	if !quick {
 		ops = append(ops, hop{Kind: "udp", Msg: 8}, hop{Kind: "https", Msg: 7}, hop{Kind: "tls", ID: "bob", Msg: 8})
@@ -72,6 +85,8 @@ func histAlphabet(quick bool) []hop {
 type histEnv struct {
 	a   *srv.Assembly
 	log *srv.RecLog
+	// old is the proxy instance replaced by the last reconfiguration.
+	old *proxy.Proxy
 }
 
 func newHistEnv() (*histEnv, error) {
@@ -94,6 +109,7 @@ func newHistEnv() (*histEnv, error) {
 // ("" = none) or an error text.
 func (e *histEnv) do(o hop) (got string, applicable bool, err error) {
 	if o.Kind == "reconfigure" {
+		e.old = e.a.Server.VerifProxy()
 		if err = e.a.Server.Reconfigure(nil); err != nil {
 			return "", true, fmt.Errorf("reconfigure: %w", err)
 		}
@@ -107,7 +123,14 @@ func (e *histEnv) do(o hop) (got string, applicable bool, err error) {
 		}
 	}
 	req := &dns.Msg{MsgHdr: dns.MsgHdr{Id: o.Msg, RecursionDesired: true}, Question: []dns.Question{{Name: "blocked.example.", Qtype: dns.TypeA, Qclass: dns.ClassINET}}}
-	pctx := e.a.Server.VerifNewContext(p, req, netip.MustParseAddrPort("192.0.2.7:5353"))
+	via := e.a.Server.VerifProxy()
+	if o.Old {
+		if e.old == nil {
+			return "", false, errNoOldProxy
+		}
+		via = e.old
+	}
+	pctx := via.VerifNewDNSContext(p, req, netip.MustParseAddrPort("192.0.2.7:5353"))
 	name := histHost
 	if o.ID != "" && p != proxy.ProtoHTTPS {
 		name = o.ID + "." + histHost
@@ -125,7 +148,7 @@ func (e *histEnv) do(o hop) (got string, applicable bool, err error) {
 		pctx.HTTPRequest = &http.Request{URL: &url.URL{Path: pa}, TLS: &tls.ConnectionState{ServerName: name}}
 	}
 	e.log.Reset()
-	beforeErr, herr := e.a.Server.VerifHandle(pctx)
+	beforeErr, herr := e.a.Server.VerifHandleVia(via, pctx)
 	if beforeErr != nil || herr != nil {
 		return "", true, fmt.Errorf("request refused: before=%v handler=%v", beforeErr, herr)
 	}
@@ -158,6 +181,9 @@ func runHist(h []hop) (st lib.Step, engineErr string) {
 	var attrib []string
 	for i, o := range h {
 		got, isReq, derr := e.do(o)
+		if errors.Is(derr, errNoOldProxy) {
+			return lib.Step{}, "" // not applicable: do not extend
+		}
 		if derr != nil {
 			return st, fmt.Sprintf("%s: %v", histText(h[:i+1]), derr)
 		}
